@@ -300,8 +300,10 @@ class Endpoint:
 
     def quiescent(self):
         t = self.t
+        # a FORWARD TSN that the peer has not caught up with is still outstanding work (it is repeated on T3)
         return (not t._sent_queue and not t._outbound_queue and not t._data_channel_queue
-                and not self.tasks and not t._reconfig_queue and t._reconfig_request is None)
+                and not self.tasks and not t._reconfig_queue and t._reconfig_request is None
+                and not getattr(t, "_forward_tsn_needed", False))
 
 
 def parse_chunks(m, data: bytes):
